@@ -52,9 +52,6 @@ class G:
         pool = {"int": INT_NAMES, "str": STR_NAMES, "list": LIST_NAMES, "dict": DICT_NAMES, "float": FLOAT_NAMES,
                 "bool": ["flag", "ok", "done"], "tuple": ["pair", "tup"], "set": ["seen", "uniq"],
                 "strlist": ["words", "parts"]}[t]
-        if self.rng.random() < 0.03 and not self.in_func:
-            self.shape.add("global-named-like-override")
-            return self.rng.choice(OVERRIDE_LIKE[:4])
         return self.rng.choice(pool)
 
     # ----- expressions
@@ -69,11 +66,14 @@ class G:
         if k < 0.6:
             op = r.choice(["+", "-", "*", "//", "%", "**"])
             right = self.int_expr(scope, d + 1)
-            if op == "**":
-                right = str(r.choice([0, 1, 2, 3]))
+            left = self.int_expr(scope, d + 1)
+            if op == "**":          # bounded growth: literal base and exponent
+                left, right = str(r.choice([2, 3, -2, 10, 0])), str(r.choice([0, 1, 2, 3]))
+            if op == "*":           # no squaring inside loops: one factor is a small literal
+                right = str(r.choice([0, 2, 3, -1, 10]))
             if op in ("//", "%") and r.random() < 0.85:
                 right = str(r.choice([1, 2, 3, 7, -2]))
-            return "(%s %s %s)" % (self.int_expr(scope, d + 1), op, right)
+            return "(%s %s %s)" % (left, op, right)
         if k < 0.7:
             ls = self.names_of("list", scope)
             if ls:
@@ -122,14 +122,14 @@ class G:
         cands = self.names_of("str", scope)
         k = r.random()
         if d >= 2 or k < 0.35:
-            if cands and r.random() < 0.6:
+            if cands and r.random() < 0.6 and d < 9:
                 return r.choice(cands)
             return r.choice(["'abc'", "''", "'Hello, World'", "\"it's\"", "'a\\tb'", "'line1\\nline2'", "'ünïcödé'",
                              "'  pad  '", "'x'", "'42'", "'a,b,c'"])
-        if k < 0.5:
-            return "(%s + %s)" % (self.str_expr(scope, d + 1), self.str_expr(scope, d + 1))
+        if k < 0.5:     # no doubling inside loops: the right operand is a literal
+            return "(%s + %s)" % (self.str_expr(scope, d + 1), self.str_expr(scope, 9))
         if k < 0.58:
-            return "(%s * %s)" % (self.str_expr(scope, d + 1), r.choice(["2", "0", "3"]))
+            return "(%s * %s)" % (self.str_expr(scope, 9), r.choice(["2", "0", "3"]))
         if k < 0.72:
             return "%s.%s" % (self.str_expr(scope, d + 1),
                               r.choice(["upper()", "lower()", "strip()", "title()", "replace('a', 'b')", "center(9, '*')",
@@ -174,7 +174,7 @@ class G:
                                             r.choice(["range(%d)" % r.randint(0, 5)] + cands),
                                             r.choice(["", " if v % 2", " if v > 1"]))
         if k < 0.62:
-            return "(%s + %s)" % (self.list_expr(scope, d + 1), self.list_expr(scope, d + 1))
+            return "(%s + %s)" % (self.list_expr(scope, d + 1), r.choice(["[1, 2, 3]", "[]", "[5]"]))
         if k < 0.74:
             return "sorted(%s%s)" % (self.list_expr(scope, d + 1), r.choice(["", ", reverse=True"]))
         if k < 0.84:
@@ -341,12 +341,13 @@ class G:
         r = self.rng
         ints = self.names_of("int", scope)
         if ints and r.random() < 0.6:
-            self.emit("%s %s %s" % (r.choice(ints), r.choice(["+=", "-=", "*=", "//=", "%="]),
-                                    r.choice(["1", "2", "3", self.int_expr(scope, 2)])), ind)
+            op = r.choice(["+=", "-=", "*=", "//=", "%="])
+            self.emit("%s %s %s" % (r.choice(ints), op,
+                                    r.choice(["1", "2", "3"] + ([self.int_expr(scope, 2)] if op != "*=" else []))), ind)
             return
         strs = self.names_of("str", scope)
         if strs:
-            self.emit("%s += %s" % (r.choice(strs), self.str_expr(scope, 2)), ind)
+            self.emit("%s += %s" % (r.choice(strs), self.str_expr(scope, 9)), ind)
             return
         self.s_assign(ind, scope)
 
@@ -489,8 +490,8 @@ class G:
             self.emit("if __name__ == '__main__':", ind)
             self.emit("    print('main', __name__)", ind)
             self.shape.add("__name__")
-        elif k < 0.35 and scope and not self.in_func:
-            n = r.choice(sorted(scope))
+        elif k < 0.35 and [n for n in scope if n not in OVERRIDE_LIKE] and not self.in_func:
+            n = r.choice(sorted(n for n in scope if n not in OVERRIDE_LIKE))
             self.emit("del %s" % n, ind)
             del scope[n]
             self.shape.add("del")
@@ -619,6 +620,13 @@ class G:
         r = self.rng
         n_defs = r.choice([0, 1, 1, 2])
         pre = r.randint(0, 2)
+        if r.random() < 0.04:
+            # a global with the name of a builtin the sandbox overrides: bound unconditionally on the first line and
+            # never deleted, so the program never reads the (blocked) builtin itself
+            n = r.choice(OVERRIDE_LIKE[:4])
+            self.emit("%s = %d" % (n, r.randint(1, 9)), 0)
+            self.vars[n] = "int"
+            self.shape.add("global-named-like-override")
         for _ in range(pre):
             self.stmt(0, self.vars)
         for _ in range(n_defs):
